@@ -202,6 +202,18 @@ type cloneRec struct {
 
 // consume scans to the end, emitting obs/sobs lines into out and performing the runtime
 // clone check: every result is cloned when delivered and the clone is re-serialised at EOF.
+// scanAgain calls Scan twice more after it has returned false: it must keep returning false
+// (EOF, fatal I/O error, open failure alike) — otherwise a consumer loop never ends.
+func scanAgain(s scanner) int {
+	again := 0
+	for i := 0; i < 2; i++ {
+		if s.Scan() {
+			again = 1
+		}
+	}
+	return again
+}
+
 func consume(out *strings.Builder, id int, s scanner) (n int, cloneOK string, labels map[string]bool) {
 	var clones []cloneRec
 	cloneOK = "ok"
@@ -346,7 +358,7 @@ func runReaderInit(fn string, text []byte, init []string, pre []byte, extra ...s
 		end := fmt.Sprintf("end n=%d failed=%s units=%s", n, ioerr, serUnits(r.Units()))
 		fmt.Fprintf(out, "obs %d %s\n", id, end)
 		fmt.Fprintf(out, "obs %d closed same\n", id)
-		fmt.Fprintf(out, "sobs %d %s clone=%s\n", id, end, cl)
+		fmt.Fprintf(out, "sobs %d %s clone=%s again=%d\n", id, end, cl, scanAgain(r))
 	})
 }
 
@@ -440,7 +452,7 @@ func runFiles(paths []string, allowStdin, allowLabels bool, fs []fsEntry, stdin 
 		end := fmt.Sprintf("end n=%d failed=%s units=%s", n, failed, serUnits(f.Units()))
 		fmt.Fprintf(out, "obs %d %s\n", id, end)
 		fmt.Fprintf(out, "obs %d closed same\n", id)
-		fmt.Fprintf(out, "sobs %d %s clone=%s distinct=%d\n", id, end, cl, len(labels))
+		fmt.Fprintf(out, "sobs %d %s clone=%s distinct=%d again=%d\n", id, end, cl, len(labels), scanAgain(f))
 	})
 }
 
